@@ -16,13 +16,14 @@ import (
 
 // ZZ_C02_lemmas: one-step lemmas behind convergence (property C02, reduced scope), for every
 // layout of N nodes and all positive rolling-update limits, not paused / frozen:
-//   quiescence  - every node has one up-to-date Ready pod  =>  nothing planned, nothing
-//                 written, desired = ready = N, no requeue;
-//   progress    - otherwise the sync plans a creation or a deletion, or asks to be requeued;
-//                 with all pods available, none missing and some outdated it plans a deletion;
-//   ranking     - creations only target nodes without pod and deletions only outdated pods, so
-//                 (kubelet: created pods become Ready) the number of nodes without an
-//                 up-to-date Ready pod never grows and shrinks by the number of creations.
+//
+//	quiescence  - every node has one up-to-date Ready pod  =>  nothing planned, nothing
+//	              written, desired = ready = N, no requeue;
+//	progress    - otherwise the sync plans a creation or a deletion, or asks to be requeued;
+//	              with all pods available, none missing and some outdated it plans a deletion;
+//	ranking     - creations only target nodes without pod and deletions only outdated pods, so
+//	              (kubelet: created pods become Ready) the number of nodes without an
+//	              up-to-date Ready pod never grows and shrinks by the number of creations.
 func ZZ_C02_lemmas() {
 	// every cluster size from a single node up to the bound
 	n := 1 + zzConcSmall(nondet.Int("extraNodes", 0, zzNumNodes(2, 3)), zzNumNodes(2, 3))
